@@ -117,10 +117,11 @@ type collection struct {
 }
 
 type harness struct {
-	trackers map[key]*tracker
-	mu       sync.Mutex
-	cols     []collection
-	problems []string
+	negOnCounters bool
+	trackers      map[key]*tracker
+	mu            sync.Mutex
+	cols          []collection
+	problems      []string
 }
 
 // Sound window for the running total T of a collection that happened inside [call, ret]:
@@ -262,6 +263,13 @@ func runHistory(k *vf.Case) {
 			}
 		}
 	}
+	// in one history of six the counters, too, are given negative increments now and then: the statement
+	// counts every recorded measurement (monotonicity is only promised for non-negative inputs)
+	negOnCounters := r.Chance(1, 6)
+	h.negOnCounters = negOnCounters
+	if negOnCounters {
+		k.C.Count("histories_with_negative_increments_on_counters", 1)
+	}
 	nReaders := 1 + r.Intn(3)
 	var readers []readerSpec
 	var opts []sdkmetric.Option
@@ -302,10 +310,24 @@ func runHistory(k *vf.Case) {
 		ui[sc], _ = m.Int64UpDownCounter("ui")
 		uf[sc], _ = m.Float64UpDownCounter("uf")
 	}
+	// in a quarter of the histories each int64 counter also exists under a second spelling of its name
+	// (instrument names are case-insensitive): both handles are one stream
+	var ciAlias [3]metric.Int64Counter
+	if r.Chance(1, 4) {
+		for sc, name := range scopeNames {
+			ciAlias[sc], _ = mp.Meter(name).Int64Counter("CI")
+		}
+		k.C.Count("histories_with_a_second_spelling_of_a_counter", 1)
+	}
+	var aliasTurn atomic.Uint32
 	addTo := func(inst int, v int64, o metric.MeasurementOption) {
 		sc := inst / 4
 		switch inst % 4 {
 		case 0:
+			if ciAlias[sc] != nil && aliasTurn.Add(1)%2 == 0 {
+				ciAlias[sc].Add(ctx, v, o.(metric.AddOption))
+				return
+			}
 			ci[sc].Add(ctx, v, o.(metric.AddOption))
 		case 1:
 			cf[sc].Add(ctx, float64(v), o.(metric.AddOption))
@@ -346,7 +368,7 @@ func runHistory(k *vf.Case) {
 				if gr.Chance(1, 4) {
 					inst, hs := gr.Intn(12), gr.Intn(2)
 					v := int64(1 + gr.Intn(5))
-					if !mono(inst) && gr.Bool() {
+					if (!mono(inst) && gr.Bool()) || (negOnCounters && gr.Chance(1, 8)) {
 						v = -v
 					}
 					addTo(inst, v, hot[hs])
@@ -355,7 +377,7 @@ func runHistory(k *vf.Case) {
 				}
 				tg := owned[gr.Intn(len(owned))]
 				v := int64(1 + gr.Intn(5))
-				if !mono(tg.k.inst) && gr.Bool() {
+				if (!mono(tg.k.inst) && gr.Bool()) || (negOnCounters && gr.Chance(1, 8)) {
 					v = -v
 				}
 				if v > 0 {
@@ -542,7 +564,7 @@ func runHistory(k *vf.Case) {
 			for kk, v := range c.vals {
 				seen[kk] = true
 				if rs.temp == metricdata.DeltaTemporality {
-					if mono(kk.inst) && v < 0 {
+					if mono(kk.inst) && !negOnCounters && v < 0 {
 						fail("monotonic-delta-negative", rs.String(), fmt.Sprintf("%s sid=%d delta %d", instNames[kk.inst], kk.sid, v))
 					}
 					running[kk] += v
@@ -551,7 +573,7 @@ func runHistory(k *vf.Case) {
 					if !ordered {
 						prevV = lastLane[c.kind][kk] // each lane is sequential in itself
 					}
-					if mono(kk.inst) && v < prevV {
+					if mono(kk.inst) && !negOnCounters && v < prevV {
 						fail("monotonic-sum-decreased", rs.String(), fmt.Sprintf("%s sid=%d %d after %d", instNames[kk.inst], kk.sid, v, prevV))
 					}
 					last[kk] = v
@@ -610,7 +632,7 @@ func runHistory(k *vf.Case) {
 				}
 			}
 			for kk := range h.trackers {
-				if !mono(kk.inst) && straddled {
+				if (!mono(kk.inst) || negOnCounters) && straddled {
 					continue // non-monotone: neither including nor excluding the straddling collection is sound
 				}
 				if run[kk] < f.lo[kk] {
@@ -699,7 +721,7 @@ func porcupineCheck(k *vf.Case, h *harness, readers []readerSpec, cfgStr string)
 			continue
 		}
 		for kk := range h.trackers {
-			if !mono(kk.inst) || kk.sid%10 != 0 {
+			if !mono(kk.inst) || h.negOnCounters || kk.sid%10 != 0 {
 				continue
 			}
 			var ops []porcupine.Operation
